@@ -148,6 +148,16 @@ class SoapClientAsync:
 
         finally:
             self.roundtrip_time = time.perf_counter() - started  # set roundtrip time even if method raises an exception
+        if resp.status >= 300:  # noqa: PLR2004
+            # an HTTP error status is a failed request, with or without a (fault) body - like SoapClient
+            soap_fault = None
+            if xml_response:
+                try:
+                    tmp = self._msg_reader.read_received_message(xml_response.encode('utf-8'))
+                    soap_fault = Fault.from_node(tmp.p_msg.msg_node)
+                except Exception:  # noqa: BLE001
+                    soap_fault = None
+            raise HTTPReturnCodeError(resp.status, resp.reason, soap_fault)
         if not xml_response:  # empty response
             return None
 
